@@ -274,6 +274,16 @@ theorem c10_gen_claim_bytes :
       claimBytes (argBytes ai) (1 + rest.length) 1 = !decide (rest.length < argBytes ai)) :=
   ⟨gen_claim_bytes, gen_claim_model⟩
 
+/-- The functions Model/Cbor.lean transcribes by hand are, statement for statement, still the text it was written
+from (rendered from the clang AST of the current source): the decoder state machine (`decode_next_element`,
+`peek_type`, `consume_next_whole_data_item`, `consume_next_single_element`, the nine typed pops), the encoder side
+(`ENCODE_THROUGH_LIBCBOR` expansion, `write_float`, `write_bytes` / `write_text`, `write_bool`, the type-only
+switch) and the three byte_buf.c functions the encoder relies on. -/
+theorem c10_gen_source_text :
+    decoderBodies = expectedDecoderBodies ∧ popBodies = expectedPopBodies ∧
+    encoderBodies = expectedEncoderBodies ∧ byteBufBodies = expectedByteBufBodies :=
+  ⟨gen_decoder_bodies, gen_pop_bodies, gen_encoder_bodies, gen_bytebuf_bodies⟩
+
 /-- `aws_byte_buf_reserve_smart` of byte_buf.c, regenerated (capacity lifted to a parameter, result = the
 capacity handed to `aws_byte_buf_reserve`): afterwards the capacity covers the request — for every
 capacity, in particular beyond any size threshold — and it is the model's policy `max(request, 2·capacity)`.
